@@ -360,13 +360,26 @@ func c13Engine() *Engine {
 		w := Gen(seed, c)
 		// make the buckets symbols of one (timeframe, attribute group); schemas
 		// equal in most runs, different in some (mixed schemas across symbols)
-		sameSchema := r.Pct(70)
+		schemaMode := r.Intn(100)
+		sameSchema := schemaMode < 55
+		// "common": the symbols share a set of columns (same names, same types) and
+		// each adds columns of its own, so that the stored record widths differ; a
+		// multi-symbol query is then legal only when projected onto shared columns
+		commonCols := !sameSchema && schemaMode < 85
 		b0 := w.Buckets[0]
+		shared := append([]Col{}, b0.Cols...)
 		for i, b := range w.Buckets {
 			b.TF, b.Attr, b.Variable = b0.TF, b0.Attr, b0.Variable
 			b.Sym = fmt.Sprintf("S%d", i)
 			if sameSchema {
 				b.Cols = b0.Cols
+			}
+			if commonCols {
+				cols := append([]Col{}, shared...)
+				for j, nx := 0, r.Intn(4); j < nx; j++ {
+					cols = append(cols, Col{Name: fmt.Sprintf("X%d_%d", i, j), Typ: []string{"f4", "f8", "i4", "i8", "i2", "u1", "u2"}[r.Intn(7)]})
+				}
+				b.Cols = cols
 			}
 		}
 		// regenerate record times for the unified timeframe
@@ -415,7 +428,9 @@ func c13Engine() *Engine {
 					key := s + suffix
 					if i, same := rowsEqual(qh.all[key], got[key]); !same {
 						feat := "same-schema"
-						if !sameSchema {
+						if commonCols {
+							feat = "shared-columns-different-widths"
+						} else if !sameSchema {
 							feat = "same-names-different-types"
 						}
 						qh.mr.violate("multi-mismatch", fmt.Sprintf("multi-mismatch|%s|%s|%s", feat, what, kindOf(b0)),
@@ -446,6 +461,99 @@ func c13Engine() *Engine {
 				check(strings.Join(sub, ",")+suffix, sub, "subset")
 			}
 			check("*"+suffix, syms, "star")
+			// restricted and projected multi-symbol queries against the same query
+			// of each symbol alone (ranges, first/last N, shared-column projections)
+			multiVsSingle := func(what string, q QuerySpec, want []string) {
+				q.Dest = strings.Join(want, ",") + suffix
+				got, err := n.Query(&q)
+				res.Evals++
+				res.AddDistinct(fmt.Sprintf("%s/%s/%s/nsym%d/mode=%d", kindOf(b0), b0.TF, what, len(want), schemaModeClass(sameSchema, commonCols)))
+				var singles = map[string][]OutRow{}
+				singleErr := false
+				for _, s := range want {
+					q1 := q
+					q1.Dest = s + suffix
+					g1, e1 := n.Query(&q1)
+					if e1 != nil {
+						singleErr = true
+						break
+					}
+					singles[s+suffix] = g1[s+suffix]
+				}
+				if singleErr {
+					res.Count("restricted-single-query-error", 1)
+					return
+				}
+				if err != nil {
+					if !sameSchema && !commonCols {
+						res.Count("mixed-schema-multi-query-error", 1)
+						return
+					}
+					if commonCols && q.Columns == nil {
+						res.Count("mixed-width-unprojected-multi-query-refused", 1)
+						return // documented restriction: different layouts need a shared projection
+					}
+					cls := "query-error"
+					if ae, ok := err.(*APIError); ok && ae.Panic {
+						cls = "query-panic"
+					}
+					qh.mr.violate(cls, fmt.Sprintf("%s|%s|%s", cls, what, normMsg(err.Error())),
+						fmt.Sprintf("multi-symbol query %s fails although each symbol alone answers: %s", q.String(), firstLine(err.Error())))
+					return
+				}
+				for _, s := range want {
+					key := s + suffix
+					if i, same := rowsEqual(singles[key], got[key]); !same {
+						feat := "same-schema"
+						if commonCols {
+							feat = "shared-columns-different-widths"
+						} else if !sameSchema {
+							feat = "same-names-different-types"
+						}
+						qh.mr.violate("multi-mismatch", fmt.Sprintf("multi-mismatch|%s|%s|%s", feat, what, kindOf(b0)),
+							fmt.Sprintf("query %s: rows for %s are %s, the same query of that symbol alone returns %s (first difference at row %d: %s vs %s)",
+								q.String(), key, descRows(got[key]), descRows(singles[key]), i, rowAt(got[key], i), rowAt(singles[key], i)))
+						return
+					}
+				}
+			}
+			if len(syms) > 1 {
+				var proj []string
+				for _, c := range shared {
+					if r.Pct(60) {
+						proj = append(proj, c.Name)
+					}
+				}
+				if len(proj) == 0 {
+					proj = []string{shared[r.Intn(len(shared))].Name}
+				}
+				var times []int64
+				for _, k := range qh.keys {
+					if len(qh.all[k]) > 0 {
+						times = append(times, interestingTimes(r, b0, qh.all[k])...)
+					}
+				}
+				shapes := []QuerySpec{{}}
+				if len(times) > 0 {
+					a, b := times[r.Intn(len(times))], times[r.Intn(len(times))]
+					if a > b {
+						a, b = b, a
+					}
+					shapes = append(shapes, QuerySpec{Start: &a, End: &b})
+					a2, b2 := a, b
+					shapes = append(shapes, QuerySpec{Start: &a2, End: &b2, Limit: 1 + r.Intn(4), FromStart: r.Pct(50)})
+				}
+				shapes = append(shapes, QuerySpec{Limit: 1 + r.Intn(5), FromStart: true}, QuerySpec{Limit: 1 + r.Intn(5), FromStart: false})
+				for si, q := range shapes {
+					what := []string{"plain", "range", "range+limit", "first-n", "last-n"}[shapeIdx(si, len(shapes))]
+					qp := q
+					qp.Columns = proj
+					multiVsSingle("projected-"+what, qp, syms)
+					if sameSchema && si > 0 {
+						multiVsSingle("unprojected-"+what, q, syms)
+					}
+				}
+			}
 			// projection: column subsets incl. unknown and duplicate names
 			for _, s := range syms {
 				key := s + suffix
@@ -519,6 +627,33 @@ func c13Engine() *Engine {
 			res.Sample(map[string]interface{}{"seed": seed, "ops": w.Describe(), "symbols": syms})
 		})
 	}}
+}
+
+func schemaModeClass(same, common bool) int {
+	switch {
+	case same:
+		return 0
+	case common:
+		return 1
+	}
+	return 2
+}
+
+// shapeIdx maps the position in the shapes list to its name index (the two
+// range shapes are present only when the history has rows).
+func shapeIdx(i, n int) int {
+	if n == 5 {
+		return i
+	}
+	// {plain, first-n, last-n}
+	return []int{0, 3, 4}[i]
+}
+
+func rowAt(rows []OutRow, i int) string {
+	if i < 0 || i >= len(rows) {
+		return "(no row)"
+	}
+	return ts(rows[i].T) + " " + rows[i].Sig()
 }
 
 func init() {
